@@ -3,47 +3,65 @@
 (* desper.logic.spatial.Transform2D / Transform3D — three stored values    *)
 (* per transform, property setters that store and then dispatch the        *)
 (* matching on_*_change event to the listeners registered on *that*        *)
-(* transform (a Transform is an EventDispatcher; the listeners here never  *)
-(* re-enter it, so one public call is one step: big-step over the          *)
-(* dispatcher of Dispatcher.tla, whose re-entrant behaviour is C03/C04).   *)
+(* transform (a Transform is an EventDispatcher).                          *)
 (*                                                                         *)
 (* Operational layer (shaped like spatial.py):                             *)
 (*   Build            __init__ of every transform with the arguments       *)
 (*                    chosen at Init (given or defaulted, copied into a    *)
 (*                    fresh vector, 2D rotation reduced modulo 360)        *)
-(*   SetPosition/SetRotation/SetScale(t, v)   store, then dispatch         *)
+(*   SetPosition/SetRotation/SetScale(t, v)   one public assignment        *)
 (*   AddListener/RemoveListener(t, l)         add_handler / remove_handler *)
-(* Declarative layer: `log` (bag of <<listener, event, payload>> of the    *)
-(* last call), `call`, and the properties at the end (C20).                *)
+(* A listener may re-enter the setter from its callback ("clamp": told a   *)
+(* value other than its clamp value, it assigns the clamp value to the     *)
+(* property that notified it).  One public call is still one TLC step, but *)
+(* its effect is computed by running the code's statements in order on a   *)
+(* machine state M = [st, lg, n, last]:                                    *)
+(*   Assign(t, p, v, M)   the setter: store, then dispatch                 *)
+(*   Loop(.., todo, M)    dispatch(): one callback per listener of the     *)
+(*                        snapshot, in an order chosen by the              *)
+(*                        specification (set iteration order); each        *)
+(*                        callback records what a read of the property     *)
+(*                        returns at that moment and may call Assign       *)
+(* so every interleaving of outer and nested deliveries is an outcome.     *)
+(* Ghosts for the declarative layer: `log` (deliveries of the last call in *)
+(* order, each [l, ev, sent, read, seq, fresh]) and `call`; the properties *)
+(* are at the end (C20).                                                   *)
 (*                                                                         *)
 (* Values are tagged so that TLC never compares a number with a token:     *)
 (*   <<"n", i>> a number,  <<"v", tok>> a vector identified by a token.    *)
 (*                                                                         *)
-(* Deviation switch (TRUE = intended, FALSE = as implemented at 05622c8):  *)
-(*   RotationNotifiesStored   D20: the 2D rotation setter dispatches the   *)
-(*                            reduced value it stored, not the raw one     *)
+(* Deviation switches (TRUE = intended, FALSE = deviating):                *)
+(*   RotationNotifiesStored   D20 (as implemented at 05622c8): the 2D      *)
+(*                            rotation setter dispatches the reduced value *)
+(*                            it stored, not the raw one                   *)
+(*   StoreBeforeNotify        the setter stores first (as coded); FALSE =  *)
+(*                            the two statements swapped, used only to     *)
+(*                            show that the order properties can fail      *)
 (***************************************************************************)
-EXTENDS Integers, FiniteSets, TLC
+EXTENDS Integers, Sequences, FiniteSets, TLC
 
 CONSTANTS T2, T3,        \* ids of the 2D / 3D transforms (strings)
           L,             \* listener ids (strings)
           Rot,           \* scalar rotations that are assigned / given to the constructor (integers)
           Vecs,          \* tokens of the vectors that are assigned / given to the constructor
           SubsChoices,   \* set of functions [L -> SUBSET Ev \ {{}}]: events each listener class maps
+          BehChoices,    \* set of functions [L -> <<"nop", "-", "-">> | <<"clamp", property, vector token>>]
           CtorChoices,   \* set of functions [T -> [Props -> value or Dflt]]: constructor arguments
           RegChoices,    \* set of functions [T -> SUBSET L]: listeners registered right after construction
           WithListenerOps,          \* BOOLEAN: include AddListener / RemoveListener
-          RotationNotifiesStored
+          RotationNotifiesStored, StoreBeforeNotify
 
 VARIABLES subs,      \* listener -> events its class maps (fixed after Init)
+          beh,       \* listener -> what its callbacks do (fixed after Init)
           ctor,      \* constructor arguments; consumed (set to Used) by Build so that later states merge
           built,
           stored,    \* transform -> [position, rotation, scale]: what a read of the property returns
           reg,       \* transform -> listeners registered on it
-          log,       \* ghost: bag (function entry -> count) of callbacks run by the last call
-          call       \* ghost: the last public call [k, t, p, v] (v = the assigned value)
+          log,       \* ghost: callbacks run by the last call, in order
+          call       \* ghost: the last public call [k, t, p, v, n, last]: v = the assigned value, n = number of
+                     \* assignments it comprised (nested ones included), last = what the latest of them keeps
 
-vars == <<subs, ctor, built, stored, reg, log, call>>
+vars == <<subs, beh, ctor, built, stored, reg, log, call>>
 
 T == T2 \cup T3
 Props == {"position", "rotation", "scale"}
@@ -61,6 +79,7 @@ Zero == V("zero")                \* Vec2() / Vec3()
 One == V("one")                  \* Vec2(1., 1.) / Vec3(1., 1., 1.)
 VecVals == {V(s) : s \in Vecs}
 RotVals(t) == IF t \in T2 THEN {N(i) : i \in Rot} ELSE VecVals
+AllVals == VecVals \cup {N(i) : i \in Rot}
 Scalar(t, p) == t \in T2 /\ p = "rotation"
 
 \* the default argument objects of __init__
@@ -73,29 +92,61 @@ DefaultOf(t, p) == CASE p = "position" -> Zero
 StoreForm(t, p, v) == IF Scalar(t, p) THEN N(v[2] % 360) ELSE v
 
 NoLog == <<>>
-\* dispatch(ev, x) on transform t: one callback per registered listener whose class maps ev
-Notify(t, ev, x) == [e \in {<<l, ev, x>> : l \in {m \in reg[t] : ev \in subs[m]}} |-> 1]
+Nop == <<"nop", "-", "-">>
+ClampRot == 10                   \* clamp value of a 2D rotation (already in [0, 360): the clamp settles)
+Clamps(l, p) == beh[l][1] = "clamp" /\ beh[l][2] = p
+ClampVal(l, t, p) == IF Scalar(t, p) THEN N(ClampRot) ELSE V(beh[l][3])
+\* dispatch(ev) on transform t reaches the registered listeners whose class maps ev (a snapshot)
+Targets(t, ev) == {l \in reg[t] : ev \in subs[l]}
+NoCall(k, t, p) == [k |-> k, t |-> t, p |-> p, v |-> Used, n |-> 0, last |-> Used]
 
-Init == /\ subs \in SubsChoices /\ ctor \in CtorChoices /\ reg \in RegChoices
+Init == /\ subs \in SubsChoices /\ beh \in BehChoices /\ ctor \in CtorChoices /\ reg \in RegChoices
         /\ built = FALSE
         /\ stored = [t \in T |-> [p \in Props |-> Used]]
-        /\ log = NoLog /\ call = [k |-> "none", t |-> "-", p |-> "-", v |-> Used]
+        /\ log = NoLog /\ call = NoCall("none", "-", "-")
 
 Build == /\ ~built /\ built' = TRUE
          /\ stored' = [t \in T |-> [p \in Props |->
                           StoreForm(t, p, IF ctor[t][p] = Dflt THEN DefaultOf(t, p) ELSE ctor[t][p])]]
          /\ ctor' = [t \in T |-> [p \in Props |-> Used]]
-         /\ log' = NoLog /\ call' = [k |-> "build", t |-> "-", p |-> "-", v |-> Used]
-         /\ UNCHANGED <<subs, reg>>
+         /\ log' = NoLog /\ call' = NoCall("build", "-", "-")
+         /\ UNCHANGED <<subs, beh, reg>>
+
+(***************************************************************************)
+(* The setter and the delivery loop, statement by statement.  Both return  *)
+(* the SET of machine states the call may end in (one per iteration order).*)
+(*   M.st    the stored values       M.lg    deliveries so far             *)
+(*   M.n     assignments begun       M.last  what the latest one keeps     *)
+(* A delivery is `fresh` when no assignment has begun since the one that   *)
+(* issued it; a stale one belongs to an outer dispatch still in progress   *)
+(* after a callback re-assigned the property.                              *)
+(***************************************************************************)
+RECURSIVE Assign(_, _, _, _), Loop(_, _, _, _, _, _)
+Assign(t, p, v, M) ==
+    LET kept == StoreForm(t, p, v)
+        sent == IF Scalar(t, p) /\ ~RotationNotifiesStored THEN v ELSE kept
+        Store(X) == [X EXCEPT !.st[t][p] = kept]
+        M1 == [M EXCEPT !.n = @ + 1, !.last = kept] IN
+    IF StoreBeforeNotify
+    THEN Loop(t, p, sent, M1.n, Targets(t, EventOf(p)), Store(M1))      \* self._p = value; self.dispatch(EV, value)
+    ELSE {Store(X) : X \in Loop(t, p, sent, M1.n, Targets(t, EventOf(p)), M1)}
+
+Loop(t, p, sent, seq, todo, M) ==
+    IF todo = {} THEN {M}
+    ELSE UNION {
+        LET M1 == [M EXCEPT !.lg = Append(@, [l |-> l, ev |-> EventOf(p), sent |-> sent, read |-> M.st[t][p],
+                                               seq |-> seq, fresh |-> seq = M.n])] IN
+        IF Clamps(l, p) /\ sent # ClampVal(l, t, p)
+        THEN UNION {Loop(t, p, sent, seq, todo \ {l}, M2) : M2 \in Assign(t, p, ClampVal(l, t, p), M1)}
+        ELSE Loop(t, p, sent, seq, todo \ {l}, M1)
+      : l \in todo}
 
 Set(t, p, v) ==
     /\ built
-    /\ LET kept == StoreForm(t, p, v)
-           sent == IF Scalar(t, p) /\ ~RotationNotifiesStored THEN v ELSE kept IN
-         /\ stored' = [stored EXCEPT ![t][p] = kept]
-         /\ log' = Notify(t, EventOf(p), sent)
-    /\ call' = [k |-> "set", t |-> t, p |-> p, v |-> v]
-    /\ UNCHANGED <<subs, ctor, built, reg>>
+    /\ \E M \in Assign(t, p, v, [st |-> stored, lg |-> NoLog, n |-> 0, last |-> Used]) :
+         /\ stored' = M.st /\ log' = M.lg
+         /\ call' = [k |-> "set", t |-> t, p |-> p, v |-> v, n |-> M.n, last |-> M.last]
+    /\ UNCHANGED <<subs, beh, ctor, built, reg>>
 
 SetPosition(t, v) == v \in VecVals /\ Set(t, "position", v)
 SetRotation(t, v) == v \in RotVals(t) /\ Set(t, "rotation", v)
@@ -104,16 +155,14 @@ SetScale(t, v) == v \in VecVals /\ Set(t, "scale", v)
 AddListener(t, l) ==
     /\ WithListenerOps /\ built
     /\ reg' = [reg EXCEPT ![t] = @ \cup {l}]
-    /\ log' = NoLog /\ call' = [k |-> "add", t |-> t, p |-> l, v |-> Used]
-    /\ UNCHANGED <<subs, ctor, built, stored>>
+    /\ log' = NoLog /\ call' = NoCall("add", t, l)
+    /\ UNCHANGED <<subs, beh, ctor, built, stored>>
 
 RemoveListener(t, l) ==
     /\ WithListenerOps /\ built
     /\ reg' = [reg EXCEPT ![t] = @ \ {l}]
-    /\ log' = NoLog /\ call' = [k |-> "remove", t |-> t, p |-> l, v |-> Used]
-    /\ UNCHANGED <<subs, ctor, built, stored>>
-
-AllVals == VecVals \cup {N(i) : i \in Rot}
+    /\ log' = NoLog /\ call' = NoCall("remove", t, l)
+    /\ UNCHANGED <<subs, beh, ctor, built, stored>>
 
 Next == \/ Build
         \/ (\E t \in T, v \in AllVals : SetPosition(t, v) \/ SetRotation(t, v) \/ SetScale(t, v))
@@ -122,13 +171,17 @@ Next == \/ Build
 Spec == Init /\ [][Next]_vars
 
 ----------------------------------------------------------------------------
-(* Declarative layer                                                       *)
+(* The declarative layer                                                   *)
 
+Idx == 1..Len(log)
 TypeOK == /\ built \in BOOLEAN /\ reg \in [T -> SUBSET L] /\ subs \in [L -> SUBSET Ev]
-          /\ \A e \in DOMAIN log : e[1] \in L /\ e[2] \in Ev
+          /\ \A i \in Idx : log[i].l \in L /\ log[i].ev \in Ev /\ log[i].seq \in 1..call.n
 
 \* the value a read of property p of transform t returns
 Read(t, p) == stored[t][p]
+\* the last notification listener l received during the last call (used only when there is one)
+LastOf(l) == log[CHOOSE i \in Idx : log[i].l = l /\ \A j \in Idx : log[j].l = l => j <= i]
+Heard == {log[i].l : i \in Idx}
 
 \* 2D rotation is kept in [0, 360)
 StoredIsReduced == built => \A t \in T2 : Read(t, "rotation")[1] = "n" /\ Read(t, "rotation")[2] \in 0..359
@@ -138,30 +191,49 @@ ConstructedLikeAssigned ==
     [][Build => \A t \in T, p \in Props :
           stored'[t][p] = StoreForm(t, p, IF ctor[t][p] = Dflt THEN DefaultOf(t, p) ELSE ctor[t][p])]_vars
 
-\* every notification carries the value a read of the matching property returns right after the call
-NotifiedValueIsReadBack == \A e \in DOMAIN log : e[3] = Read(call.t, PropOf(e[2]))
+\* the notifications of the latest assignment of the call carry the value a read of the property returns
+\* right after the call (without re-entrant listeners: every notification does)
+NotifiedValueIsReadBack == \A i \in Idx : log[i].seq = call.n => log[i].sent = Read(call.t, PropOf(log[i].ev))
+
+\* the value is stored before anybody is told: a listener reading the property inside its callback sees the value
+\* it is being told — unless the property has been assigned again since (stale delivery of an outer dispatch)
+DeliveryReadsPayload == \A i \in Idx : log[i].fresh => log[i].read = log[i].sent
+
+\* after the call the property holds what the most recent assignment (in the order they were made, nested ones
+\* included) keeps: an outer assignment does not overwrite what a callback assigned meanwhile
+StoredIsLastAssigned == call.k = "set" => Read(call.t, call.p) = call.last
+
+\* after the call, the last notification a listener received is the value a read returns — unless it is a stale one
+LastNotificationIsReadBack ==
+    call.k = "set" => \A l \in Heard : LastOf(l).fresh => LastOf(l).sent = Read(call.t, call.p)
+\* The same without the exception does NOT hold for the code as written (nor for any setter that dispatches
+\* synchronously): a listener that comes after a re-assigning listener in the iteration order is told the outer,
+\* already overwritten value last.  Kept to show the difference (expect_violation run on the intended model).
+LastNotificationIsReadBackStrict ==
+    call.k = "set" => \A l \in Heard : LastOf(l).sent = Read(call.t, call.p)
 
 \* only the event of the assigned property is dispatched; nothing is dispatched by other calls
-OnlyMatchingEvent == \A e \in DOMAIN log : call.k = "set" /\ e[2] = EventOf(call.p)
+OnlyMatchingEvent == \A i \in Idx : call.k = "set" /\ log[i].ev = EventOf(call.p)
 
-\* each listener registered on the assigned transform whose class maps the event is called exactly
-\* once, nobody else is called (in particular not the listeners of the other transform)
+\* every assignment (nested ones included) notifies exactly once each listener registered on the assigned
+\* transform whose class maps the event, and nobody else (in particular not the listeners of the other transform)
 OncePerListener ==
-    /\ \A e \in DOMAIN log : log[e] = 1
-    /\ call.k = "set" =>
-         \A l \in L : Cardinality({e \in DOMAIN log : e[1] = l}) =
-                      (IF l \in reg[call.t] /\ EventOf(call.p) \in subs[l] THEN 1 ELSE 0)
+    call.k = "set" =>
+        \A l \in L, s \in 1..call.n : Cardinality({i \in Idx : log[i].l = l /\ log[i].seq = s}) =
+                                        (IF l \in reg[call.t] /\ EventOf(call.p) \in subs[l] THEN 1 ELSE 0)
 
 \* a call on one transform never changes what another one reads — instances built from the same default
 \* arguments included: they hold no common value that an assignment elsewhere could alter
 DefaultsNotShared ==
     [][built => \A u \in T : (call'.t # u) => stored'[u] = stored[u]]_vars
 
-\* an assignment changes exactly the assigned property of the assigned transform, to the assigned
-\* value (2D rotation: to its representative in [0, 360)); every other call leaves all values alone
+\* an assignment changes exactly the assigned property of the assigned transform, to the assigned value (2D
+\* rotation: to its representative in [0, 360)) or to what a re-entrant listener assigned on top of it; every
+\* other call leaves all values alone
 StoresAssigned ==
     [][built => IF call'.k = "set"
-                THEN stored' = [stored EXCEPT ![call'.t][call'.p] =
-                                   IF call'.t \in T2 /\ call'.p = "rotation" THEN N(call'.v[2] % 360) ELSE call'.v]
+                THEN /\ stored' = [stored EXCEPT ![call'.t][call'.p] = call'.last]
+                     /\ call'.n = 1 => call'.last = (IF call'.t \in T2 /\ call'.p = "rotation"
+                                                    THEN N(call'.v[2] % 360) ELSE call'.v)
                 ELSE stored' = stored]_vars
 =============================================================================
